@@ -167,7 +167,7 @@ def evaluate(case):
     name, doc, doc_set = cname, e_doc, False
     done = []
     for op, arg in case.get("ops", ()):
-        optags = tuple("prior:" + o for o, _ in done) + (("newdoc:" + arg,) if op == "doc" else ())
+        optags = tuple("prior:" + o for o, _ in done) + (("newdoc:" + arg,) if op == "doc" and arg != "plain" else ())
         stage = "set-doc" if op == "doc" else "rename"
         before_src = cells.formula.source
         try:
@@ -223,6 +223,11 @@ def minimise(case, check):
                 cur["ops"] = trial
             else:
                 i += 1
+    for i, (op, arg) in enumerate(cur.get("ops", ())):      # an ordinary doc text where the unusual one is not needed
+        if op == "doc" and arg != "plain":
+            trial = cur["ops"][:i] + (("doc", "plain"),) + cur["ops"][i + 1:]
+            if still(dict(cur, ops=trial)):
+                cur["ops"] = trial
     for ax in (G.AXES[case["kind"]] if "text" not in cur else ["form", "name"]):
         if cur[ax] != neutral[ax]:
             c2 = dict(cur)
@@ -241,13 +246,32 @@ sys.path.insert(0, os.environ.get("C20_DRIVERS", "/verif/drivers"))
 import c20
 case = %r
 print(c20.case_text(case))
-fails = c20.evaluate(case)
-c20.ctx().close()
+try:
+    fails = c20.evaluate(case)
+finally:
+    c20.ctx().close()
 for f in fails:
     print(f[0], f[1]); print(f[2])
 print("C20 violated" if fails else "C20 holds for this text")
 sys.exit(1 if fails else 0)
 ''' % (case,))
+
+
+DEFCELLS_SCRIPT = '''import warnings; warnings.filterwarnings("ignore")
+import sys, os
+sys.path.insert(0, os.environ.get("C20_DRIVERS", "/verif/drivers"))
+import c20
+case = %r
+print(case["text"])
+try:
+    fails = c20.evaluate_defcells(case)
+finally:
+    c20.ctx().close()
+for f in fails:
+    print(f[0]); print(f[2])
+print("C20 violated" if fails else "C20 holds for this text")
+sys.exit(1 if fails else 0)
+'''
 
 
 def case_text(case):
@@ -380,6 +404,8 @@ SPECIAL = [
     ("deco-three-with-args", "@deco2(1)\n@deco\n@deco2(n=2)\ndef f(x):\n    return x + g", "f", [(2,)]),
     ("deco-blank-line-between", "@deco\n\ndef f(x):\n    return x + g", "f", [(2,)]),
     ("comment-looks-like-def", "# def g(x): pass\ndef f(x):\n    # def h(y):\n    return x + g", "f", [(2,)]),
+    ("docstring-concatenated", "def f(x):\n    'implicit ' \"concatenation\"\n    return x + g", "f", [(2,)]),
+    ("docstring-parenthesised", "def f(x):\n    ('parenthesised '\n     'docstring')\n    return x + g", "f", [(2,)]),
     ("string-before-def-keyword", "def f(x): return 'def' if x else 'lambda x: x'", "f", [(2,), (0,)]),
 ]
 
@@ -491,7 +517,7 @@ def run(res, tier, seed):
                 for small, check, optags, what in reports:
                     if small["kind"] == "defcells":
                         tags = ("defcells", "text:" + small["tag"], check)
-                        script = None
+                        script = DEFCELLS_SCRIPT % ({k: v for k, v in small.items() if k != "key"},)
                     else:
                         tags = G.feature_tags(small) + tuple(optags) + (check,) + ((("special:" + small["special"]),) + tuple(small.get("extra_tags", ())) if small.get("special") else ())
                         script = make_script({k: v for k, v in small.items() if k != "key"})
